@@ -1,9 +1,16 @@
 (* C20 — the role of each input file depends only on its extension and argument order.
    Statements only; model in Model/Files.v, proofs in Proofs/FilesOk.v.
    walkdir and the real file system (symlinked roots, unreadable directories, non-UTF-8 names)
-   are outside the model and exercised by the runs of props/C20.py. *)
+   are outside the model and exercised by the runs of props/C20.py.
+   The third sentence of the property (swapping the two programs and the direction) is C20_swap_roles
+   (which file is left / right) + C20_swap (the two families of obligations are refuted by the same
+   interpretations; proved for the end-to-end model Model/StrongFull.v).  Equality of the emitted FILES
+   does not hold: the order of type declarations and transition axioms and the left_/right_ formula
+   names differ (docs/C20.md). *)
 From Coq Require Import List String Permutation Sorting.Sorted.
 Import ListNotations.
+From Anthem Require Import Syntax.Fol Syntax.Asp Sem.Domain Sem.Sat Model.Problem Model.Strong Model.StrongFull
+  Proofs.DecomposeOk Proofs.StrongFullOk Proofs.SwapOk.
 From Anthem Require Import Model.Files Proofs.FilesOk.
 Open Scope list_scope.
 
@@ -74,6 +81,59 @@ Theorem C20_add_other : forall (a : list string) (o : string) (b : list string),
   kind_of o = KOther -> roles_of (sort_paths (a ++ o :: b)) = roles_of (sort_paths (a ++ b)).
 Proof. exact roles_add_other. Qed.
 Print Assumptions C20_add_other.
+
+(* ---------------- the swap sentence (audit A12) ---------------- *)
+(* roles: with two program files the first argument is the left program, the second the right one *)
+Theorem C20_swap_roles : forall a b : string,
+  kind_of a = KProgram -> kind_of b = KProgram ->
+  left (sort_paths [b; a]) = Some b /\ right (sort_paths [b; a]) = Some a /\
+  left (sort_paths [a; b]) = Some a /\ right (sort_paths [a; b]) = Some b.
+Proof.
+  intros a b Ha Hb. unfold sort_paths, sort_entries. cbn [map fold_left fst snd]. rewrite Ha, Hb.
+  repeat split; reflexivity.
+Qed.
+Print Assumptions C20_swap_roles.
+
+(* obligations: `verify --equivalence strong --direction forward B A` and `--direction backward A B`
+   (same other flags).  [swap_forward A B ..] = the task with left B, right A, forward;
+   [swap_backward A B ..] = left A, right B, backward.  Whenever the model returns both families
+   (every fuel; the clash premise is F8b, as in C03), THE SAME INTERPRETATIONS REFUTE SOME PROBLEM OF
+   THE ONE AND SOME PROBLEM OF THE OTHER.  (The families are not equal as lists of problems: problem
+   names, left_/right_ formula names and the order of the transition axioms differ.) *)
+Theorem C20_swap :
+  forall (fuel : nat) (A B : Asp.program) (dec : decomposition) (repr : frepr) (simp brk : bool)
+         (pbs pbs' : list problem),
+    strong_decompose_full_fuel fuel (swap_forward A B dec repr simp brk) = SOk pbs ->
+    strong_decompose_full_fuel fuel (swap_backward A B dec repr simp brk) = SOk pbs' ->
+    no_symbol_pred_clash_full_fuel fuel (swap_forward A B dec repr simp brk) ->
+    no_symbol_pred_clash_full_fuel fuel (swap_backward A B dec repr simp brk) ->
+    forall (FI : fint) (M : pint), refutes_some FI M pbs <-> refutes_some FI M pbs'.
+Proof. exact swap_refutes. Qed.
+Print Assumptions C20_swap.
+
+(* the model returns the one family iff it returns the other *)
+Theorem C20_swap_accepts :
+  forall (fuel : nat) (A B : Asp.program) (dec : decomposition) (repr : frepr) (simp brk : bool),
+    (exists pbs, strong_decompose_full_fuel fuel (swap_forward A B dec repr simp brk) = SOk pbs) <->
+    (exists pbs, strong_decompose_full_fuel fuel (swap_backward A B dec repr simp brk) = SOk pbs).
+Proof. exact swap_accepts. Qed.
+Print Assumptions C20_swap_accepts.
+
+(* non-vacuity, and the reason the statement is about refutation sets: for  p :- q, not r.  and
+   p :- q.  both families consist of one problem; they differ as lists (names, order of axioms) *)
+Example C20_swap_example :
+  let a0 p := mkatom p [] in
+  let A := [mkrule (HBasic (a0 "p")) [BLit (mklit SNone (a0 "q"))]] in
+  let B := [mkrule (HBasic (a0 "p")) [BLit (mklit SNone (a0 "q")); BLit (mklit SNeg (a0 "r"))]] in
+  exists pbs pbs',
+    strong_decompose_full (swap_forward A B DSequential ReprTauStar true true) = SOk pbs /\
+    strong_decompose_full (swap_backward A B DSequential ReprTauStar true true) = SOk pbs' /\
+    List.length pbs = 1 /\ List.length pbs' = 1 /\ pbs <> pbs' /\
+    map (fun pb => List.length (pb_formulas pb)) pbs = map (fun pb => List.length (pb_formulas pb)) pbs'.
+Proof.
+  cbv zeta. eexists _, _. split; [vm_compute; reflexivity|]. split; [vm_compute; reflexivity|].
+  split; [reflexivity|]. split; [reflexivity|]. split; [discriminate|reflexivity].
+Qed.
 
 (* ---- non-vacuity / the corner cases named in docs/C20.md ---- *)
 Open Scope string_scope.
